@@ -19,8 +19,9 @@ Fixpoint dedupe (l : list N) : list N :=
 Definition boundaries (sets : list cset) : list N :=
   filter valid_cp (dedupe (0 :: flat_map (fun cs => flat_map (fun r : N * N => [fst r; snd r + 1]) cs) sets)).
 Definition template_sets : list cset := flat_map re_csets (gen_tp2 [] ++ gen_tp1 [] ++ gen_tpw []).
-Definition reps_templates : list N := boundaries template_sets.
-Definition reps_all : list N := boundaries (template_sets ++ map snd gen_ci_table).
+(* capped, so that a source edit introducing a set with hundreds of ranges cannot blow the family up *)
+Definition reps_templates : list N := firstn 120 (boundaries template_sets).
+Definition reps_all : list N := firstn 200 (boundaries (template_sets ++ map snd gen_ci_table)).
 
 (* a case: pre, head, value, tail, post, mask *)
 Definition case := (str * (str * (str * (str * (str * str)))))%type.
